@@ -122,7 +122,8 @@ def run_and_check(rec, F, cnt, prefix='C04', check_temp=True):
             # the state is advanced over exactly the recorded time increment: the ledger below speaks about the step from the previous
             # recorded time to this one, so the dt the iterator integrated over must be that increment
             t_prev = post.steps[s0 + j - 1][0] if j > 0 else t_start
-            if abs((time - t_prev) - dt) > 8 * np.spacing(max(abs(time), abs(dt))):
+            # (the solver treats a step that covers the remaining time up to 1e-10 of it as the final step and lands on the end time)
+            if abs((time - t_prev) - dt) > 8 * np.spacing(max(abs(time), abs(dt))) + 2e-10 * abs(dt):
                 F.add(prefix + '.step_clock', f'call {ci} step {j}: the state was integrated over dt={dt!r} but the recorded time advanced from {t_prev!r} to {time!r} ({time - t_prev!r})', where='solver')
             if len(calls) != len(wts):
                 F.add(prefix + '.stage_count', f'call {ci} step {j}: {len(calls)} flux evaluations for iterator {op["it"]}', where='iterator')
